@@ -42,7 +42,32 @@ def write_replay(run, res, decoded, which):
 
 
 def native_replay(run, path):
+    kv = dict(l.strip().split("=", 1) for l in open(path) if "=" in l)
+    if kv.get("template") == "work":
+        return work_replay(run, kv)
     p = core.sh([run.vdump, "replay", path], check=False, timeout=120)
+    return p.returncode, p.stdout.strip()
+
+
+def work_replay(run, kv):
+    """C19: the work counters are observed natively on the real crate linked
+    against the memchr contract model (vwork)."""
+    import shutil
+    src = os.path.join(run.dir, "vwork")
+    if not os.path.exists(src):
+        shutil.copytree(os.path.join(VERIF, "vwork"), src, ignore=shutil.ignore_patterns("target", "Cargo.lock"))
+        ct = open(os.path.join(src, "Cargo.toml")).read().replace('path = "/repo"', 'path = "%s"' % core.REPO)
+        open(os.path.join(src, "Cargo.toml"), "w").write(ct)
+        shutil.copy(os.path.join(core.REPO, "Cargo.lock"), os.path.join(src, "Cargo.lock"))
+    b = core.sh(["cargo", "build", "--offline", "--manifest-path", os.path.join(src, "Cargo.toml"),
+                 "--target-dir", os.path.join(run.dir, "vwork-target")], env=run.env, check=False, timeout=900)
+    if b.returncode != 0:
+        return 2, "vwork does not build: " + b.stdout[-800:]
+    f = kv["case"].split()
+    mk = {"std": "0", "lf": "1", "ll": "2"}[f[1]]
+    sk = {"both": "0", "un": "1", "an": "2"}[f[6]]
+    p = core.sh([os.path.join(run.dir, "vwork-target", "debug", "vwork"), kv.get("kind", "dfa"), mk, f[2], f[3], sk, f[7],
+                 kv.get("hay", ""), kv.get("s", "0"), kv.get("e", "0"), kv.get("anchored", "0")], check=False, timeout=120)
     return p.returncode, p.stdout.strip()
 
 
